@@ -14,7 +14,15 @@ BS = {"engine": "bytespace", "needs": ["hz", "enum", "bytespace"], "level": "exp
 OS = {"engine": "opspace", "needs": ["hz", "enum", "opspace"], "level": "exploration",
       "gen": {"quick": ["mx"], "thorough": ["mx"]}}
 
+MS = {"engine": "mapspace", "needs": ["hz", "enum", "mapspace"], "level": "model_checking", "mapctl": True,
+      "gen": {"quick": ["mx"], "thorough": ["mx", "mxall"]}, "budget": {"quick": "200s", "thorough": "1500s"}}
+
+GS13 = {"engine": "genspace", "needs": ["hz", "schema", "genspace"], "level": "model_checking", "plugins": ["plain", "mapctl"],
+        "budget": {"quick": "300s", "thorough": "2400s"}}
+
 PROPS = {
+    "C13": dict(GS13),
+    "C05": dict(MS),
     "C09": dict(OS),
     "C08": dict(OS, level="model_checking", budget={"quick": "240s", "thorough": "1500s"}),
     "C06": dict(BS),
